@@ -47,6 +47,13 @@ theorem C06_prefix {ε α : Type} (f : List Char → Outcome ε α) (h : ∀ t, 
     ∀ t p : List Char, p <+: t → (f p).crashes = false :=
   fun _ p _ => h p
 
+/-- **C06_load on the in-memory file system**, with no hypothesis left: for *every* file tree (cyclic include graphs
+included), every glob option set and every root, loading with fuel `|files| + 1` ends in `ok` or a `LoadError`
+(`C11_fake_terminates`). -/
+theorem C06_load_fake (o : Load.GlobOpts) (t : Load.Tree) (root : Load.Path) :
+    (Load.load (Load.fakeFS o t) (t.files.length + 1) root).status.crashes = false :=
+  Load.C11_fake_terminates o t (t.files.length + 1) (Nat.lt_succ_self _) root
+
 /-! ## book-keeping -/
 
 /-- **C06_process.** `process` never panics and never hangs, for every list of entries (any syntax tree the
